@@ -57,9 +57,9 @@ MC_QUICK = [
 ]
 MC_THOROUGH = [
     ('one breaker, all strategies', mc_cfg(1, ALL, [0, 1, 2], [2, 3], [1, 3], [3], [42], [0, 2], [1, 2], 6, 4, 2)),
-    ('one breaker, all strategies, all parameters', mc_cfg(1, ALL, [0, 1, 2], [2, 3], [0, 1, 3], [1, 3], [21, 42], [0, 1, 2], [1, 2], 7, 4, 2)),
-    ('one breaker, three buckets / degenerate bucket counts, three in flight', mc_cfg(1, ALL, [1, 2], [1, 2, 4], [1, 3], [3], [63, 20, 43], [0, 2], [1, 2, 3], 8, 4, 3)),
-    ('two breakers on one resource', mc_cfg(2, ALL, [1], [2], [1], [1, 3], [21], [0, 2], [1, 2], 6, 4, 2)),
+    ('one breaker, all strategies, all parameters', mc_cfg(1, ALL, [0, 1, 2], [2, 3], [0, 1, 3], [1, 3], [21, 42], [0, 1, 2], [1, 2], 6, 4, 2)),
+    ('one breaker, three buckets / degenerate bucket counts, three in flight', mc_cfg(1, ALL, [1], [2, 3], [2], [3], [63, 20, 43], [0, 2], [1, 2, 3], 7, 4, 3)),
+    ('two breakers on one resource', mc_cfg(2, ALL, [1], [2], [1], [1, 3], [21], [0, 2], [1, 2], 5, 4, 2)),
     ('two breakers, different windows', mc_cfg(2, ['eratio', 'ecount'], [1, 2], [3], [1], [3], [21, 42], [1], [1, 2], 6, 4, 2)),
     ('two resources', mc_cfg(3, ['slow', 'eratio'], [1], [2], [1], [1, 3], [21], [0, 1], [1, 2], 5, 4, 2)),
 ]
@@ -395,7 +395,9 @@ def handle_mismatches(c, drv, scns, mism, tp, tag):
     for it in items:
         k = KEY_TRUNC if it[0][0]['tr'] in explained else None
         groups.setdefault(k, []).append(it)
-    c.cov['mismatch_groups'] = {str(k): len(v) + c.cov.get('mismatch_groups', {}).get(str(k), 0) for k, v in groups.items()}
+    mg = c.cov.setdefault('mismatch_groups', {})
+    for k, v in groups.items():
+        mg[str(k or 'unexplained')] = mg.get(str(k or 'unexplained'), 0) + len(v)
     for key, its in groups.items():
         its.sort(key=lambda it: len(it[0]))
         for k, (s, line, exp) in enumerate(its[:1] if key else its[:3]):
